@@ -1,5 +1,6 @@
 import RustCcModel.Model.Bits
 import RustCcModel.Model.Machine
+import RustCcModel.Proofs.MaxCounts
 /-! # C16 — reference counts saturate with a panic instead of wrapping
 
 All statements are about arbitrary 16-bit words (`< 2^16`); the limits `rcMax`, `weakMax`,
@@ -152,5 +153,18 @@ open World in
 /-- A panic keeps every count: `raise` changes only the mode. -/
 theorem raise_changes_nothing (w : World) : w.raise.heap = w.heap ∧ w.raise.metas = w.metas ∧ w.raise.pc = w.pc := by
   unfold raise; split <;> simp
+
+/-! ### Every reachable world -/
+
+/-- **Counts never wrap and never spill into the flag bits**: in every reachable world — any sequence of operations,
+callbacks, bulk clones, caught panics — every strong count is at most `MAX` (16382) and every weak count at most the weak
+`MAX` (32767); so the words of `src/counter_marker.rs` / `weak_counter_marker.rs` always hold a count below the reserved
+value, next to intact flag bits (`incr_exact`, `setFinalized_spec`, …). -/
+theorem counts_within_limits (c : Cfg) (nH nW nK : Nat) (w : World) (h1 : 1 ≤ c.rcMax) (h2 : 1 ≤ c.weakMax)
+    (h : Reachable c nH nW nK w) (x : Id) : (w.heap x).rc ≤ c.rcMax ∧ (w.metas x).weak ≤ c.weakMax :=
+  ⟨(reachable_maxOk h1 h2 h).1 x, (reachable_maxOk h1 h2 h).2 x⟩
+
+/-- The regenerated limits satisfy the hypotheses. -/
+example : 1 ≤ Consts.rcMax ∧ 1 ≤ Consts.weakMax := by decide
 
 end RustCc.C16
